@@ -23,6 +23,9 @@ Record body := { b_kind : kind; b_relayer : Z; b_vals : list (Z * val) }.
 Definition mk_body (t : Z * Z * list (Z * val)) : body :=
   let '(k, r, vs) := t in {| b_kind := kind_of_z k; b_relayer := r; b_vals := vs |}.
 
+(** the harness files [(101, [1])] with a body whose Fees are nil *)
+Definition b_fees_present (b : body) : bool := negb (existsb (fun p => fst p =? 101) (b_vals b)).
+
 (** compass valset: validators (address ids, in the order of the valset), powers, id *)
 Definition valset := (list Z * list Z * Z)%type.
 Definition empty_valset : valset := ([], [], 0).
@@ -127,7 +130,11 @@ Theorem gates_as_modelled :
   (* the processed set only grows and membership is pure key presence, as [processed] / [mem_hash] have it *)
   G.is_tx_processed_consults = "key presence"%string /\
   G.processed_store_users = ["isTxProcessed"; "setTxAsAlreadyProcessed"; "txAlreadyProcessedStore"]%string /\
-  G.processed_store_deleters = [].
+  G.processed_store_deleters = [] /\
+  (* CheckAndProcessAttestedMessages: a failing message is logged and the loop goes on, see [endblock_ids] *)
+  G.endblock_on_attest_error = "continue"%string /\
+  (* VerifyAgainstTX of the two fee-carrying actions: nil fees => ErrEthTxNotVerified, see [verify] *)
+  G.nil_fees_not_verified = ["SubmitLogicCall"; "UploadUserSmartContract"]%string.
 Proof. repeat split; reflexivity. Qed.
 
 Lemma method_tag_inj : forall k k', method_tag k = method_tag k' -> k = k'.
